@@ -1050,11 +1050,60 @@ func errNilRetSites(p *Program, pkgs map[string]bool, report func(fn *ssa.Functi
 		if !isRet || len(bad.Preds) != 1 && bad != b.Succs[0] && bad != b.Succs[1] {
 			return
 		}
-		// only the instructions of a plain return block: no call that could consume the error
+		// a return block that does nothing with the error except, at most, logging it: the
+		// error (or a value it was boxed or stored into) is handed to no call but a logging
+		// call, is not stored away and is not sent
+		tainted := map[ssa.Value]bool{ev: true}
 		for _, ins := range bad.Instrs {
-			switch ins.(type) {
-			case *ssa.Return, *ssa.DebugRef, *ssa.UnOp, *ssa.RunDefers:
-			default:
+			switch x := ins.(type) {
+			case *ssa.MakeInterface:
+				if tainted[x.X] {
+					tainted[x] = true
+				}
+			case *ssa.ChangeInterface:
+				if tainted[x.X] {
+					tainted[x] = true
+				}
+			case *ssa.Slice:
+				if tainted[x.X] {
+					tainted[x] = true
+				}
+			case *ssa.Store:
+				if !tainted[x.Val] {
+					continue
+				}
+				// boxed into a local array (the argument list of a variadic call)
+				root := x.Addr
+				if ia, ok := root.(*ssa.IndexAddr); ok {
+					root = ia.X
+				}
+				if al, ok := root.(*ssa.Alloc); ok {
+					tainted[al] = true
+					continue
+				}
+				return
+			case *ssa.MapUpdate:
+				if tainted[x.Value] || tainted[x.Key] {
+					return
+				}
+			case *ssa.Send:
+				if tainted[x.X] {
+					return
+				}
+			case *ssa.Call:
+				uses := false
+				for _, a := range x.Call.Args {
+					if tainted[a] {
+						uses = true
+					}
+				}
+				if x.Call.IsInvoke() && tainted[x.Call.Value] {
+					uses = true
+				}
+				if uses && !isLoggingCall(x) {
+					return
+				}
+			case *ssa.Go, *ssa.Defer, *ssa.Panic:
 				return
 			}
 		}
@@ -1141,4 +1190,320 @@ func ruleERRNILRET(p *Program, r *Reporter) {
 		}
 		r.Ob(id, funcName(fn), "tested error not answered with a nil error", pos, ok, isBad, why)
 	})
+}
+
+// ---------------------------------------------------------------------------
+// V-RECV-PATH — once the event processor has taken an event from the channel
+// it cannot leave before the next turn of its loop: from the arm of the select
+// that received the event no return is reachable without going through the
+// select again (a second look at the stop channel after the receive drops an
+// event whose change is already in the cache).
+
+func ruleVRECVPATH(p *Program, r *Reporter) {
+	const id = "V-RECV-PATH"
+	evCh := p.Field("cache", "eventProcessor", "events")
+	if evCh == nil {
+		r.Anchor(id, "cache.eventProcessor.events")
+		return
+	}
+	n := 0
+	for _, fn := range p.srcFuncs {
+		if pkgOf(fn) != "cache" {
+			continue
+		}
+		for _, b := range fn.Blocks {
+			for _, ins := range b.Instrs {
+				sel, ok := ins.(*ssa.Select)
+				if !ok || loopHeaderOf(b) == nil {
+					continue
+				}
+				for si, st := range sel.States {
+					if st.Dir != types.RecvOnly || !loadOfField(st.Chan, evCh) {
+						continue
+					}
+					// the arm taken when state si fired: true edge of `index == si`
+					var arm *ssa.BasicBlock
+					if refs := sel.Referrers(); refs != nil {
+						for _, ref := range *refs {
+							ex, ok := ref.(*ssa.Extract)
+							if !ok || ex.Index != 0 {
+								continue
+							}
+							if er := ex.Referrers(); er != nil {
+								for _, u := range *er {
+									bo, ok := u.(*ssa.BinOp)
+									if !ok || bo.Op != token.EQL {
+										continue
+									}
+									k, isC := constInt(bo.Y)
+									if !isC || int(k) != si {
+										continue
+									}
+									if br := bo.Referrers(); br != nil {
+										for _, iu := range *br {
+											if iff, ok := iu.(*ssa.If); ok {
+												arm = iff.Block().Succs[0]
+											}
+										}
+									}
+								}
+							}
+						}
+					}
+					if arm == nil {
+						if len(sel.States) == 1 && !sel.Blocking {
+							continue
+						}
+						// a select with a single case has no index test: the arm is what follows
+						if len(b.Succs) == 1 {
+							arm = b.Succs[0]
+						} else {
+							continue
+						}
+					}
+					n++
+					// returns reachable from the arm without passing the select's block
+					leaves := false
+					var at token.Pos = sel.Pos()
+					seen := map[*ssa.BasicBlock]bool{b: true}
+					work := []*ssa.BasicBlock{arm}
+					for len(work) > 0 {
+						x := work[len(work)-1]
+						work = work[:len(work)-1]
+						if seen[x] {
+							continue
+						}
+						seen[x] = true
+						if ret, isRet := x.Instrs[len(x.Instrs)-1].(*ssa.Return); isRet {
+							leaves, at = true, ret.Pos()
+						}
+						work = append(work, x.Succs...)
+					}
+					r.Ob(id, funcName(fn), "no exit between receiving an event and the next turn", at, !leaves, true,
+						ifs(!leaves, "after an event has been received the loop always comes back to the select", "the function can return after it has taken an event from the channel and before the loop comes round again: that event's change is in the cache but the handlers never hear of it"))
+				}
+			}
+		}
+	}
+	if n < 1 {
+		r.Anchor(id, "select receiving from eventProcessor.events inside a loop")
+	}
+}
+
+// ---------------------------------------------------------------------------
+// M-STORE — a column value that the mapper has converted is stored into the
+// model: in Mapper.getData and what it reaches, no path leads from a successful
+// OvsToNative conversion to the next column (the loop header) or to a
+// successful return without passing the SetField call.
+
+func ruleMSTORE(p *Program, r *Reporter) {
+	const id = "M-STORE"
+	root := p.Fn("mapper", "Mapper", "getData")
+	conv := p.Fn("ovsdb", "", "OvsToNative")
+	if root == nil || conv == nil {
+		r.Anchor(id, "mapper.Mapper.getData / ovsdb.OvsToNative")
+		return
+	}
+	reach := map[*ssa.Function]bool{}
+	for _, g := range p.Reach(root) {
+		reach[g] = true
+	}
+	stores := func(g *ssa.Function) bool {
+		for _, h := range p.Reach(g) {
+			for _, b := range h.Blocks {
+				for _, ins := range b.Instrs {
+					if c, ok := ins.(*ssa.Call); ok {
+						if sc := c.Call.StaticCallee(); sc != nil && sc.Name() == "SetField" && pkgOf(sc) == "mapper" {
+							return true
+						}
+					}
+				}
+			}
+		}
+		return false
+	}
+	n := 0
+	for g := range reach {
+		for _, b := range g.Blocks {
+			for _, ins := range b.Instrs {
+				c, ok := ins.(*ssa.Call)
+				if !ok || c.Call.StaticCallee() != conv {
+					continue
+				}
+				n++
+				storeBlocks := map[*ssa.BasicBlock]bool{}
+				for _, sb := range g.Blocks {
+					for _, si := range sb.Instrs {
+						sc2, ok := si.(*ssa.Call)
+						if !ok {
+							continue
+						}
+						if callee := sc2.Call.StaticCallee(); callee != nil {
+							if callee.Name() == "SetField" && pkgOf(callee) == "mapper" || reach[callee] && callee != g && stores(callee) {
+								storeBlocks[sb] = true
+							}
+						}
+					}
+				}
+				h := loopHeaderOf(b)
+				skipped := false
+				var at token.Pos = c.Pos()
+				seen := map[*ssa.BasicBlock]bool{}
+				work := append([]*ssa.BasicBlock{}, b.Succs...)
+				if storeBlocks[b] {
+					work = nil // converted and stored in one block
+				}
+				for len(work) > 0 {
+					x := work[len(work)-1]
+					work = work[:len(work)-1]
+					if seen[x] || storeBlocks[x] {
+						continue
+					}
+					seen[x] = true
+					if h != nil && x == h {
+						skipped = true
+						continue
+					}
+					if ret, isRet := x.Instrs[len(x.Instrs)-1].(*ssa.Return); isRet {
+						if len(ret.Results) == 0 {
+							skipped, at = true, ret.Pos()
+						} else if k, isC := retValue(ret, len(ret.Results)-1).(*ssa.Const); isC && k.IsNil() {
+							skipped, at = true, ret.Pos()
+						}
+						continue
+					}
+					work = append(work, x.Succs...)
+				}
+				r.Ob(id, funcName(g), "converted column value is stored", at, !skipped, true,
+					ifs(!skipped, "every path from the conversion goes through SetField or ends in an error", "a column value that was converted successfully can be dropped without SetField: the model keeps whatever the field held before (for a reused model, the previous row's value)"))
+			}
+		}
+	}
+	if n < 1 {
+		r.Anchor(id, "getData: call to ovsdb.OvsToNative")
+	}
+}
+
+// ---------------------------------------------------------------------------
+// R-STARTLAST — connect starts its per-connection handler goroutines only when
+// nothing can fail any more: no return with a non-nil error is reachable from a
+// go statement (or from the call of a helper that contains one) in connect. A
+// failed attempt that has already started handlers leaves them running while
+// the retry starts a second generation.
+
+func ruleRSTARTLAST(p *Program, r *Reporter) {
+	const id = "R-STARTLAST"
+	root := p.Fn("client", "ovsdbClient", "connect")
+	stopFld := p.Field("client", "ovsdbClient", "stopCh")
+	if root == nil || stopFld == nil {
+		r.Anchor(id, "client.(*ovsdbClient).connect / stopCh")
+		return
+	}
+	// functions called from connect (not started with go) that contain a go statement
+	var hasGo func(g *ssa.Function, depth int, seen map[*ssa.Function]bool) bool
+	hasGo = func(g *ssa.Function, depth int, seen map[*ssa.Function]bool) bool {
+		if g == nil || seen[g] || depth > 3 || pkgOf(g) != "client" {
+			return false
+		}
+		seen[g] = true
+		for _, b := range g.Blocks {
+			for _, ins := range b.Instrs {
+				switch x := ins.(type) {
+				case *ssa.Go:
+					if tgt, _ := p.Callees(x); len(tgt) > 0 {
+						for _, t := range tgt {
+							if t != nil && pkgOf(t) == "client" && t.Name() != "handleDisconnectNotification" {
+								return true
+							}
+						}
+					}
+					if _, isMC := x.Call.Value.(*ssa.MakeClosure); isMC {
+						return true
+					}
+				case *ssa.Call:
+					if sc := x.Call.StaticCallee(); sc != nil && sc != root && hasGo(sc, depth+1, seen) {
+						return true
+					}
+				}
+			}
+		}
+		return false
+	}
+	n := 0
+	for _, b := range root.Blocks {
+		for _, ins := range b.Instrs {
+			starts := false
+			switch x := ins.(type) {
+			case *ssa.Go:
+				tgt, _ := p.Callees(x)
+				for _, t := range tgt {
+					if t != nil && t.Name() == "handleDisconnectNotification" {
+						starts = false
+						goto next
+					}
+				}
+				starts = true
+			case *ssa.Call:
+				if sc := x.Call.StaticCallee(); sc != nil && sc != root && pkgOf(sc) == "client" && sc.Name() != "tryEndpoint" && hasGo(sc, 0, map[*ssa.Function]bool{}) {
+					starts = true
+				}
+			}
+		next:
+			if !starts {
+				continue
+			}
+			n++
+			bad := false
+			var at token.Pos = ins.Pos()
+			seen := map[*ssa.BasicBlock]bool{}
+			work := []*ssa.BasicBlock{b}
+			first := true
+			for len(work) > 0 {
+				x := work[len(work)-1]
+				work = work[:len(work)-1]
+				if seen[x] && !first {
+					continue
+				}
+				first = false
+				seen[x] = true
+				if ret, isRet := x.Instrs[len(x.Instrs)-1].(*ssa.Return); isRet && len(ret.Results) > 0 {
+					if k, isC := retValue(ret, len(ret.Results)-1).(*ssa.Const); !isC || !k.IsNil() {
+						bad, at = true, ret.Pos()
+					}
+				}
+				work = append(work, x.Succs...)
+			}
+			r.Ob(id, funcName(root), "handlers started after the last step that can fail", at, !bad, true,
+				ifs(!bad, "no failing return can follow this start of a handler goroutine", "connect can still fail after it has started this handler goroutine: the attempt is retried with the old handlers still running (two event processors on one cache, a WaitGroup that never drains)"))
+		}
+	}
+	if n < 1 {
+		r.Anchor(id, "connect: start of the handler goroutines")
+	}
+}
+
+// isLoggingCall: a call whose only effect is to print: package log, fmt.Print*/Fprint*,
+// methods of logr.Logger / logr.LogSink, Error() of the error itself.
+func isLoggingCall(c *ssa.Call) bool {
+	if c.Call.IsInvoke() {
+		if c.Call.Method.Name() == "Error" && c.Call.Method.Type().(*types.Signature).Params().Len() == 0 {
+			return true
+		}
+		if pk := c.Call.Method.Pkg(); pk != nil && pk.Path() == "github.com/go-logr/logr" {
+			return true
+		}
+		return false
+	}
+	sc := c.Call.StaticCallee()
+	if sc == nil || sc.Pkg == nil {
+		return false
+	}
+	switch sc.Pkg.Pkg.Path() {
+	case "log", "github.com/go-logr/logr":
+		return true
+	case "fmt":
+		n := sc.Name()
+		return len(n) >= 5 && (n[:5] == "Print" || n[:5] == "Fprin" || n[:5] == "Sprin")
+	}
+	return false
 }
